@@ -1,6 +1,6 @@
 (* C09 — LSH and batching never invent pairs and never lose exact duplicates. *)
 From Coq Require Import ZArith QArith List Permutation.
-From PV Require Import Gen.DomainConst Gen.CloneConst Clone.Pairs Clone.PairsFacts Clone.PairsProofs Clone.PairsBatch Clone.PairsOrder Clone.PairsWitness Clone.PairsTie.
+From PV Require Import Gen.DomainConst Gen.CloneConst Clone.Pairs Clone.PairsFacts Clone.PairsProofs Clone.PairsBatch Clone.PairsOrder Clone.PairsWitness Tie.CloneTie.
 Import ListNotations.
 Open Scope Z_scope.
 
